@@ -1,7 +1,7 @@
 (* C02 — union and intersection of explicit tree automata have exact language semantics; the reported maps
    name the states of the result. Statements only. *)
 From Coq Require Import List NArith Bool.
-From V Require Import Sem Prod Incl TrimDefs Lang ProductDefs ProductProofs BinopDefs BinopProofs SharedTable.
+From V Require Import Sem Prod Incl TrimDefs Lang ProductDefs ProductProofs BinopDefs BinopProofs SharedTable ProdNumbering.
 
 (* Union as the code builds it (both operands re-indexed into one automaton) accepts exactly the union,
    for every pair of reported maps that are injective on the operands' states with disjoint ranges *)
@@ -46,6 +46,20 @@ Theorem C02_owners_disjoint_not_enough : disjoint (owners uA) (owners uB) /\
   exists t, accepts (ta_app uA uB) t /\ ~ accepts uA t /\ ~ accepts uB t.
 Proof. exact owners_disjoint_not_enough. Qed.
 
+(* (A) how the product constructions number their states: a pair not found in the translation map gets the number `size of the map`.
+   For EVERY sequence of look-ups the map is injective in both directions, and an answer, once given, is what the final map says *)
+Theorem C02_numbering_injective : forall ops e1 e2, In e1 (pm_run ops nil) -> In e2 (pm_run ops nil) ->
+  (snd e1 = snd e2 -> e1 = e2) /\ (fst e1 = fst e2 -> e1 = e2).
+Proof. exact numbering_injective. Qed.
+Theorem C02_numbering_stable : forall ops1 ops2 p q,
+  In ((p, q), snd (pm_get (pm_run ops1 nil) p q)) (pm_run (ops1 ++ (p, q) :: ops2) nil).
+Proof. exact numbering_stable. Qed.
+(* erasing entries from the map ("dead pairs") breaks it: one number is handed out for two pairs *)
+Theorem C02_numbering_erase_refuted :
+  let r := pm_run_e (cons (Get 0 0) (cons (Get 1 1) (cons (Erase 0 0) (cons (Get 2 2) nil)))) in
+  In ((1, 1), 1)%N (snd r) /\ In ((2, 2), 1)%N (snd r) /\ In ((1, 1), 1)%N (fst r) /\ In ((2, 2), 1)%N (fst r).
+Proof. exact numbering_erase_refuted. Qed.
+
 Print Assumptions C02_union_lang.
 Print Assumptions C02_union_disjoint_lang.
 Print Assumptions C02_isect_td_lang.
@@ -59,3 +73,6 @@ Print Assumptions C02_shared_union_exact.
 Print Assumptions C02_shared_isect_sound.
 Print Assumptions C02_shared_isect_refuted.
 Print Assumptions C02_owners_disjoint_not_enough.
+Print Assumptions C02_numbering_injective.
+Print Assumptions C02_numbering_stable.
+Print Assumptions C02_numbering_erase_refuted.
